@@ -795,7 +795,8 @@ def surface_case(draw):
     return {"V": V, "F": s["F"], "tags": s["tags"], "ops": ops, "pre": pre, "sort": draw(st.integers(0, 3)) != 0,
             "form": draw_form(draw, len(V), uniform and vform == "float"), "sweep_seed": draw(st.integers(0, 1000)),
             "scale": sc, "vform": vform, "verbose": draw(st.integers(0, 4)) == 0, "second": second,
-            "env": draw_env(draw), "fail": draw_fail(draw), "placement": placement, "extra": s.get("extra", [])}
+            "env": draw_env(draw), "fail": draw_fail(draw), "placement": placement, "extra": s.get("extra", []),
+            "decoys": draw(st.sampled_from([0, 0, 0, 0, 1, 2]))}
 
 
 def build_vertices(raw, V, vform):
@@ -1066,6 +1067,19 @@ def fn_surface(case, ctx):
     fail = case.get("fail")
     if fail:
         second = None
+    # objects of the same size built, edited, dropped and collected beforehand: anything the library keeps per id() of a
+    # mesh / container would now be attached to recycled addresses
+    ctx.label(f"decoys={case.get('decoys', 0)}")
+    for d in range(int(case.get("decoys", 0))):
+        import gc
+        Ft = G.op_triangulate_all(V, F, d)[1] if d % 2 == 0 else F
+        dm = build_surface(V, Ft, case["form"] if d % 2 else "list", case.get("vform", "float"), not env.get("complete_edges", True))
+        with M.mesh.SurfaceSubdivision(dm) as ded:
+            ded.triangulate()
+            if d % 2 == 0 and len(Ft) * 3 <= MAX_FACES:
+                ded.subdivide_triangles_3quads() if d % 4 == 0 else ded.loop_subdivision()
+        del dm, ded
+        gc.collect()
     m = build_surface(V, F, case["form"], case.get("vform", "float"), not env.get("complete_edges", True))
     surface_queries(Pfx(ctx, "pre:"), m, V, F, case["pre"], case["sort"], "query before editing")
     sweep1 = not second or second["sweep_first"]
@@ -1391,6 +1405,12 @@ def vol_ops(draw, lo, hi):
 @st.composite
 def volume_case(draw):
     t = draw(GT.tets(max_cells=24))
+    extra = []
+    k = draw(st.integers(0, 9))
+    if k in (4, 5, 6):      # a vertex that belongs to no cell, as the first, a middle or the last vertex
+        pos = {4: 0, 5: len(t["V"]) // 2, 6: len(t["V"])}[k]
+        t = dict(t, V=t["V"][:pos] + [[-3.0, -3.5, -2.0]] + t["V"][pos:], C=[[v + 1 if v >= pos else v for v in c] for c in t["C"]])
+        extra.append("unused-vertex-" + {4: "first", 5: "middle", 6: "last"}[k])
     d0 = [GT.lib_det(t["V"], c) for c in t["C"]]
 
     def ok_int(Vi):
@@ -1404,7 +1424,7 @@ def volume_case(draw):
     return {"V": V, "C": t["C"], "tags": t["tags"], "ops": vol_ops(draw, 1, 4), "pre": pre, "sort": draw(st.integers(0, 3)) != 0,
             "form": draw_form(draw, len(V), vform == "float"), "sweep_seed": draw(st.integers(0, 1000)),
             "scale": sc, "vform": vform, "verbose": draw(st.integers(0, 4)) == 0, "second": second,
-            "env": draw_env(draw, volume=True), "fail": draw_fail(draw), "placement": placement}
+            "env": draw_env(draw, volume=True), "fail": draw_fail(draw), "placement": placement, "extra": extra}
 
 
 def build_volume(V, C, form, vform, explicit_faces=False, explicit_edges=False):
@@ -1579,6 +1599,8 @@ def fn_volume(case, ctx):
     ctx.label("pre-queried" if case["pre"] else "not-pre-queried", f"nops={len(case['ops'])}", f"scale={case.get('scale', 1.0):g}",
               "coords=" + case.get("vform", "float"), "second-block=" + (second["on"] if second else "no"))
     label_pre(ctx, case["pre"], VOL_TABLE)
+    for x in case.get("extra", []) or ["usual"]:
+        ctx.label("element-roles=" + x)
     ctx.nontrivial(any(len(cs) == 2 for cs in ref0.f2c.values()) or len(case["ops"]) >= 2 or bool(second))
     M.config.sort_neighborhoods = bool(case["sort"])
     env = case.get("env", {})
@@ -1843,8 +1865,8 @@ def size_case(draw):
         kind = "small"
     else:
         kind = "padded"
-        nu, nv = draw(st.integers(1, 6)), draw(st.integers(1, 6))
-        op, n = draw(st.sampled_from([("loop", 1), ("loop", 1), ("loop", 2), ("quads3", 1), ("sub6", 1), ("loop", 3)]))
+        nu, nv = draw(st.integers(1, 5)), draw(st.integers(1, 4))
+        op, n = draw(st.sampled_from([("loop", 1), ("loop", 1), ("loop", 2), ("quads3", 1), ("sub6", 1)]))
         nV, nE, nF = grid_counts(nu, nv)
         T = 2 ** draw(st.sampled_from([16, 16, 16, 8]))
         added = nE if op == "loop" else nE + nF          # new vertices of the first round
@@ -2009,11 +2031,11 @@ def self_test():
 
 
 SUBCHECKS = [
-    SubCheck("surface_edit", surface_case(), fn_surface, quick=400, thorough=1500),
-    SubCheck("volume_edit", volume_case(), fn_volume, quick=300, thorough=1500),
+    SubCheck("surface_edit", surface_case(), fn_surface, quick=240, thorough=1500),
+    SubCheck("volume_edit", volume_case(), fn_volume, quick=240, thorough=1500),
     SubCheck("polyline_split", polyline_case(), fn_polyline, quick=200, thorough=1500),
     SubCheck("double_boundary", ears_case(), fn_ears, quick=160, thorough=800),
-    SubCheck("size_thresholds", size_case(), fn_size, quick=24, thorough=40, watchdog=(150, 400)),
+    SubCheck("size_thresholds", size_case(), fn_size, quick=16, thorough=40, watchdog=(150, 400)),
 ]
 
 
